@@ -169,7 +169,8 @@ func (s *S) Send(p *Peer, b []byte) error {
 			if !s.L.IsOpen(p.ProxyFd) {
 				return nil
 			}
-			if err := s.L.Read(p.ProxyFd); err != nil {
+			// through the reactor's dispatcher (eventloop.callback), as epoll would deliver it
+			if err := s.L.Event(p.ProxyFd, true, false); err != nil {
 				return err
 			}
 		}
